@@ -89,6 +89,154 @@ def observed_vals(matching):
     return vals
 
 
+# ----------------------------------------------------------------------------- spec -> implementation (TLC-generated behaviours)
+def observer_rules_for(ids):
+    out = ["rule none_ { condition: true }"]
+    for name in sorted(ids):
+        ty = VARS[name]
+        if ty == "b":
+            out.append("rule %s_T { condition: %s }" % (name, name))
+        else:
+            for k, v in enumerate(DOM[ty]):
+                out.append("rule %s_%d { condition: %s == %s }" % (name, k, name, lit(ty, v)))
+    return "\n".join(out)
+
+
+def fn(x):
+    """ToJson prints the empty function as []"""
+    return {} if x == [] else x
+
+
+def act_lines(a, cenv_ids):
+    op = a["op"]
+    if op == "CDefine": return ["cdefine 0 %s %s %s" % (a["ty"], a["id"], val_arg(a["ty"], a["v"]))]
+    if op == "GetRules": return ["add 0 - " + yv.hx(observer_rules_for(cenv_ids).encode()), "getrules 0 0", "cdestroy 0"]
+    if op == "RDefine": return ["rdefine 0 %s %s %s" % (a["ty"], a["id"], val_arg(a["ty"], a["v"]))]
+    if op == "ScannerCreate": return ["scanner %d 0" % a["s"]]
+    if op == "ScannerDestroy": return ["sdestroy %d" % a["s"]]
+    if op == "SDefine": return ["sdefine %d %s %s %s" % (a["s"], a["ty"], a["id"], val_arg(a["ty"], a["v"]))]
+    raise ValueError(op)
+
+
+def replay_model(res, tier, wd, exe):
+    """every transition of the ExternalsMC state graph becomes one implementation test: the shortest path to its source state,
+    the action, then an observation of the whole target state (every live scanner, and the rule set through a fresh scanner)"""
+    import concurrent.futures as cf
+    maxops = 6 if tier == "quick" else 7
+    cfgp = os.path.join(wd, "ExternalsGen_%d.cfg" % maxops)
+    open(cfgp, "w").write(open(os.path.join(yv.VERIF, "spec", "ExternalsGen.cfg")).read().replace("MaxOps = 5", "MaxOps = %d" % maxops))
+    t = yv.tlc("ExternalsGen", cfgp, wd, workers=1, coverage=False, timeout=1800)
+    if t["violated"] or t["broken"]:
+        raise yv.Broken("ExternalsGen did not complete: %s" % (t["violated"] or t["out"][-1500:]))
+    edges, parent, seen_edges = [], {}, set()
+    key = lambda st: json.dumps(st, sort_keys=True)
+    init = None
+    for ln in t["out"].split("\n"):
+        if not ln.startswith('"{'):
+            continue
+        e = json.loads(json.loads(ln))
+        kf, kt = key(e["from"]), key(e["to"])
+        if init is None:
+            init = kf; parent[kf] = None
+        if kf not in parent:
+            raise yv.Broken("ExternalsGen printed a transition from a state not reached before (TLC must run with one worker)")
+        if kt not in parent:
+            parent[kt] = (kf, e["act"], e["to"])
+        ek = (kf, json.dumps(e["act"], sort_keys=True))
+        if ek not in seen_edges:
+            seen_edges.add(ek); edges.append(e)
+    res.cov["parts"]["model_states"] = len(parent); res.cov["parts"]["model_transitions"] = len(edges)
+
+    def path_to(k):
+        p = []
+        while parent[k] is not None:
+            kf, a, st = parent[k]
+            p.append((a, st)); k = kf
+        return p[::-1]
+
+    def test_lines(e):
+        steps = path_to(key(e["from"])) + [(e["act"], e["to"])]
+        lines, expect = ["compiler 0"], []
+        cenv_ids, compiled = set(), False
+        for a, st in steps:
+            lines += act_lines(a, cenv_ids)
+            if a["op"] == "CDefine" and st["ret"] == 0: cenv_ids.add(a["id"])
+            if a["op"] == "GetRules": compiled = True
+            expect.append(("ret", a["op"], st["ret"]))
+        to = e["to"]
+        if not compiled:          # observe the compiler's environment through a rule set made from it
+            lines += act_lines({"op": "GetRules"}, cenv_ids); expect.append(("ret", "GetRules", 0))
+            renv = {k: v["v"] for k, v in fn(to["cenv"]).items()}
+        else:
+            renv = {k: v["v"] for k, v in fn(to["renv"]).items()}
+        for s_ in sorted(to["alive"]):
+            lines += ["data 1 78", "scan %d 1 mem - - -" % s_]
+            expect.append(("seen", s_, {k: v["v"] for k, v in fn(to["senv"][s_ - 1]).items()}))
+        lines += ["scanner 3 0", "data 1 78", "scan 3 1 mem - - -", "sdestroy 3"]       # the rule set itself, through a scanner the model does not have
+        expect.append(("ret", "ScannerCreate", 0)); expect.append(("seen", 3, renv))
+        for s_ in sorted(to["alive"]): lines.append("sdestroy %d" % s_)
+        lines += ["rdestroy 0"]
+        return lines, expect
+
+    def run_batch(bi_part):
+        bi, part = bi_part
+        lines, expects = ["init", "opt iterlog 0", "opt logmatches 0"], []
+        for ti, e in enumerate(part):
+            ls, ex = test_lines(e)
+            lines.append("note t%d" % ti); lines += ls; expects.append(ex)
+        lines.append("finalize")
+        run = yv.run_script(exe, lines, wd, name="c20_gen_%d" % bi, timeout=900)
+        per, cur = {}, None
+        for ev in run.events:
+            if ev["e"] == "Note" and ev["text"].startswith("t"): cur = per.setdefault(int(ev["text"][1:]), [])
+            elif cur is not None: cur.append(ev)
+        out = []
+        for ti, (e, ex) in enumerate(zip(part, expects)):
+            obs, curm, sid = [], None, None
+            for ev in per.get(ti, []):
+                if ev["e"] in ("CDefine", "RDefine", "SDefine", "GetRules", "ScannerCreate", "ScannerDestroy") and not (ev["e"] == "ScannerDestroy"):
+                    if ev["e"] == "ScannerCreate" or "ret" in ev: obs.append(("ret", ev["e"], ev.get("ret", 0)))
+                elif ev["e"] == "ScanCall": curm, sid = set(), ev["sid"]
+                elif ev["e"] == "Cb" and ev["msg"] == "match" and curm is not None: curm.add(ev["rule"])
+                elif ev["e"] == "ScanRet":
+                    vals = observed_vals(curm or set())
+                    obs.append(("seen", sid, vals)); curm = None
+            # ScannerDestroy has no result code in the API: dropped from both sides
+            ex2 = [x for x in ex if not (x[0] == "ret" and x[1] == "ScannerDestroy")]
+            ok = len(obs) == len(ex2)
+            why = None if ok else "the implementation produced %d results, the model %d" % (len(obs), len(ex2))
+            if ok:
+                for o, x in zip(obs, ex2):
+                    if x[0] == "ret" and (o[0] != "ret" or o[1] != x[1] or o[2] != x[2]):
+                        why = "%s returned %s, the model says %s" % (x[1], o[2], x[2]); break
+                    if x[0] == "seen":
+                        got = {k: v for k, v in o[2].items() if k in x[2]}
+                        extra = {k: v for k, v in o[2].items() if k not in x[2] and not (isinstance(v, str) and v.startswith("ambiguous:[]")) and v is not False}
+                        if o[0] != "seen" or o[1] != x[1] or got != x[2] or extra:
+                            why = "scanner %s observes %s, the model state says %s" % (x[1], o[2], x[2]); break
+            out.append((e, why))
+        return run.complete, yv.crash_summary(run) if not run.complete else "", out
+
+    parts = [(bi, edges[i:i + 250]) for bi, i in enumerate(range(0, len(edges), 250))]
+    nbad = 0
+    with cf.ThreadPoolExecutor(max_workers=min(16, os.cpu_count() or 4)) as ex:
+        for complete, crash, out in ex.map(run_batch, parts):
+            if not complete:
+                res.violation("driver did not complete a batch of model-generated tests: " + crash, yv.save_replay("C20", "gen_crash", {"crash": crash}))
+            for e, why in out:
+                res.count(1, ("gen", json.dumps(e["act"], sort_keys=True), key(e["from"])))
+                if why is None:
+                    res.cov["traces_validated_against_impl"] += 1
+                else:
+                    nbad += 1
+                    if nbad <= 10:
+                        steps = [a for a, _ in path_to(key(e["from"]))] + [e["act"]]
+                        res.violation("model-generated behaviour %s: %s" % (json.dumps(steps)[:300], why),
+                                      yv.save_replay("C20", "gen_%d" % nbad, {"steps": steps, "model_target_state": e["to"], "why": why}))
+    if edges:
+        res.sample({"model_generated_test": [a for a, _ in path_to(key(edges[len(edges) // 2]["from"]))] + [edges[len(edges) // 2]["act"]]})
+
+
 def c20(res, tier, seed):
     wd = yv.workdir("C20")
     m = yv.tlc("ExternalsMC", "MC_Externals.cfg", wd, timeout=1200)
@@ -167,7 +315,10 @@ def c20(res, tier, seed):
             records, owner = records[hi_end:], owner[hi_end:]
         if hists:
             res.sample({"history": hists[0][:12]})
-    res.cov["rule"] = ("random histories: compile-time definitions of 4 variables (one per type, duplicates attempted), get-rules, then 6-25 operations over "
+    replay_model(res, tier, wd, exe)
+    res.cov["rule"] = ("(a) spec -> implementation: every transition of the ExternalsMC state graph (MaxOps 6, thorough 7; 2 scanners; 4 identifiers; 2 values per type; right and wrong "
+                       "types) printed by TLC (ExternalsGen.tla) is replayed through the API along the shortest path to its source state; every result code and the whole target state "
+                       "(each live scanner, and the rule set through a fresh scanner) compared with the model state. (b) implementation -> spec: random histories: compile-time definitions of 4 variables (one per type, duplicates attempted), get-rules, then 6-25 operations over "
                        "rule-set level defines, up to 3 scanners created / defined on / scanned / destroyed, with unknown identifiers and wrong types; every result code "
                        "and every value observed by every scan (through one rule per (variable, value)) validated against Externals.tla; distinct = distinct histories")
     res.assumptions += ["scanner-level integer and boolean definitions are interchangeable (both are integer objects) - follows the code, manual silent",
